@@ -155,4 +155,103 @@ theorem mnLoop_legacy_isSome (target : Int) (cs : List (Nat × Int)) (cum : Int)
       · simp only [sumProbs] at h; omega
       · omega
 
+/-! ## The walk = first exceeding index, else last positive candidate -/
+
+theorem mnLoop_fixed_eq (add : Int → Int → Int) (r : Int) (cs : List (Nat × Int)) (cum : Int)
+    (last : Option (Nat × Int)) :
+    mnLoop .fixed add r cum last cs =
+      match firstExceed add r cum cs with
+      | some c => some c
+      | none => lastPosFrom last cs := by
+  induction cs generalizing cum last with
+  | nil => simp [mnLoop, firstExceed, lastPosFrom]
+  | cons c cs ih =>
+    simp only [mnLoop, hit, firstExceed]
+    by_cases hh : r < add cum c.2
+    · simp [hh]
+    · simp only [hh, decide_false, Bool.false_eq_true, ↓reduceIte]
+      rw [ih]
+      simp [lastPosFrom]
+
+theorem runSum_append_one (add : Int → Int → Int) (cum : Int) (l : List (Nat × Int))
+    (c : Nat × Int) : runSum add cum (l ++ [c]) = add (runSum add cum l) c.2 := by
+  simp [runSum, List.foldl_append]
+
+theorem runSum_cons (add : Int → Int → Int) (cum : Int) (l : List (Nat × Int)) (c : Nat × Int) :
+    runSum add cum (c :: l) = runSum add (add cum c.2) l := by
+  simp [runSum]
+
+/-- `firstExceed` finds a candidate: it splits the list at the first prefix whose running sum
+exceeds `r`. -/
+theorem firstExceed_some (add : Int → Int → Int) (r : Int) (cs : List (Nat × Int)) (cum : Int)
+    (c : Nat × Int) (h : firstExceed add r cum cs = some c) :
+    ∃ pre post, cs = pre ++ c :: post ∧ r < runSum add cum (pre ++ [c]) ∧
+      ∀ n, 0 < n → n ≤ pre.length → ¬ r < runSum add cum (pre.take n) := by
+  induction cs generalizing cum with
+  | nil => simp [firstExceed] at h
+  | cons d ds ih =>
+    simp only [firstExceed] at h
+    by_cases hh : r < add cum d.2
+    · simp only [hh, ↓reduceIte, Option.some.injEq] at h
+      subst h
+      refine ⟨[], ds, rfl, by simpa [runSum] using hh, ?_⟩
+      intro n hn hle; simp at hle; omega
+    · simp only [hh, ↓reduceIte] at h
+      obtain ⟨pre, post, hsplit, hex, hmin⟩ := ih (add cum d.2) h
+      refine ⟨d :: pre, post, by simp [hsplit], by simpa [runSum_cons] using hex, ?_⟩
+      intro n hn hle
+      cases n with
+      | zero => omega
+      | succ n =>
+        simp only [List.take_succ_cons, runSum_cons]
+        cases n with
+        | zero => simpa [runSum] using hh
+        | succ m => exact hmin (m + 1) (by omega) (by simpa using hle)
+
+/-- `firstExceed` finds nothing exactly when no prefix's running sum exceeds `r`. -/
+theorem firstExceed_none (add : Int → Int → Int) (r : Int) (cs : List (Nat × Int)) (cum : Int)
+    (h : firstExceed add r cum cs = none) :
+    ∀ n, 0 < n → n ≤ cs.length → ¬ r < runSum add cum (cs.take n) := by
+  induction cs generalizing cum with
+  | nil => intro n hn hle; simp at hle; omega
+  | cons d ds ih =>
+    simp only [firstExceed] at h
+    by_cases hh : r < add cum d.2
+    · simp [hh] at h
+    · simp only [hh, ↓reduceIte] at h
+      intro n hn hle
+      cases n with
+      | zero => omega
+      | succ n =>
+        simp only [List.take_succ_cons, runSum_cons]
+        cases n with
+        | zero => simpa [runSum] using hh
+        | succ m => exact ih (add cum d.2) h (m + 1) (by omega) (by simpa using hle)
+
+/-- `lastPosFrom`: either a candidate of `cs` with positive probability after which no
+candidate is positive, or the incoming `last` when `cs` has no positive candidate. -/
+theorem lastPosFrom_spec (cs : List (Nat × Int)) (last : Option (Nat × Int)) :
+    (∃ pre c post, cs = pre ++ c :: post ∧ 0 < c.2 ∧ (∀ d ∈ post, ¬ 0 < d.2) ∧
+        lastPosFrom last cs = some c) ∨
+    ((∀ d ∈ cs, ¬ 0 < d.2) ∧ lastPosFrom last cs = last) := by
+  induction cs generalizing last with
+  | nil => right; simp [lastPosFrom]
+  | cons c cs ih =>
+    have hstep : lastPosFrom last (c :: cs) = lastPosFrom (if 0 < c.2 then some c else last) cs := by
+      simp [lastPosFrom]
+    rcases ih (if 0 < c.2 then some c else last) with ⟨pre, e, post, hs, he, hpost, hres⟩ | ⟨hnone, hres⟩
+    · left
+      exact ⟨c :: pre, e, post, by simp [hs], he, hpost, by rw [hstep, hres]⟩
+    · by_cases hp : 0 < c.2
+      · left
+        refine ⟨[], c, cs, rfl, hp, hnone, ?_⟩
+        rw [hstep, hres]; simp [hp]
+      · right
+        refine ⟨?_, ?_⟩
+        · intro d hd
+          rcases List.mem_cons.mp hd with rfl | hd
+          · exact hp
+          · exact hnone d hd
+        · rw [hstep, hres]; simp [hp]
+
 end RtenVerif.Sampler
